@@ -203,6 +203,14 @@ def _k_calc_comment(info, fails):
     return sp.comments != 'none' and 'calc' in sp.comment_parts and _tree_has(info['sheet'], _is_calc)
 
 
+def _k_atkeyword_crlf(info, fails):
+    if info['domain'] not in ('generator', 'nodes'):
+        return False
+    sp = _sp(info)
+    return (sp.escape == 'hexcrlf' and any(p in sp.escape_parts for p in ('atkeyword-unknown', 'atkeyword-margin'))
+            and _tree_has(info['sheet'], lambda x: isinstance(x, (tuple, list)) and len(x) == 3 and x[0] in ('unknown', 'margin')))
+
+
 def _functional_pseudo(x):
     return isinstance(x, (tuple, list)) and len(x) > 0 and ((x[0] == 'pclass' and len(x) == 3 and x[2] is not None) or x[0] == 'not')
 
@@ -236,6 +244,7 @@ KNOWN = [
      and info['content'] != info['content'].strip() and info['content'].strip(' \t\r\n\f') == info['content']),
     ('C03-unknownrule-string-brace', lambda info, fails: info['domain'] == 'content' and info['context'] == 'unknown rule string' and any(c in info['content'] for c in '{}')),
     ('C03-not-spelled-type-argument', _k_not_type),
+    ('C03-atkeyword-escape-linebreak', _k_atkeyword_crlf),
     ('C03-calc-comment', _k_calc_comment),
     ('C03-pseudo-arg-comment', _k_pseudo_comment),
     ('C03-empty-page-fontface-margin', _k_empty),
@@ -930,6 +939,7 @@ WITNESSES = [
     ('C03-calc-comment', lambda: _rt_text('a { x: a / calc( /**/ 1px /**/ + 2px) }')),
     ('C03-pseudo-arg-comment', lambda: _rt_text('a:nth-child(/**/2n/**/+/**/1) { color: red }')),
     ('C03-empty-page-fontface-margin', lambda: _rt_text('@page :first {}')),
+    ('C03-atkeyword-escape-linebreak', lambda: _rt_text('@media screen {\n@f\\6F\r\no x;\n}')),
     ('C03-mediarule-namespaces-ignored', _w_media_ns),
     ('C03-import-name-set-not-written', _w_import_name),
     ('C03-selector-outside-default-namespace', _w_outside_ns),
